@@ -140,6 +140,7 @@ type CmdOpts struct {
 	Platforms bool // draw platform tags
 	NoPipe    bool // never set the pipeline flag / pipe text
 	NoBlank   bool // never generate a blank command line
+	Sized     bool // sometimes a command line (and category) from SizedText
 	Long      bool // sometimes a description of 300-700 bytes whose last word uses letters found nowhere before it
 	Heavy     bool // DB(): sometimes one entry gets a word repeated 255..1000 (rarely 65536+) times within one field
 }
@@ -187,6 +188,12 @@ func Command(o CmdOpts) *rapid.Generator[database.Command] {
 			c.Command = rapid.SampledFrom(CaseLength).Draw(t, "case-length")
 			if rapid.Bool().Draw(t, "bare") {
 				c.Description, c.Keywords, c.Tags = rapid.SampledFrom([]string{"", "x"}).Draw(t, "short-desc"), nil, nil
+			}
+		}
+		if o.Sized && rapid.IntRange(0, 11).Draw(t, "sized-text") == 0 {
+			c.Command = SizedText(t, true)
+			if rapid.Bool().Draw(t, "sized-niche") {
+				c.Niche = SizedText(t, false)
 			}
 		}
 		if o.Long && rapid.IntRange(0, 9).Draw(t, "long-text") == 0 {
@@ -419,7 +426,7 @@ type QueryClass string
 // (vocab, nlp, stop, punct, one, long, typo, fragment).
 func Query(t *rapid.T, cmds []database.Command, allow []QueryClass) (string, QueryClass) {
 	if allow == nil {
-		allow = []QueryClass{"vocab", "vocab", "vocab", "nlp", "stop", "punct", "one", "long", "typo", "typo", "fragment", "mixed"}
+		allow = []QueryClass{"vocab", "vocab", "vocab", "nlp", "stop", "punct", "one", "long", "typo", "typo", "fragment", "mixed", "sized"}
 	}
 	toks := Tokens(cmds)
 	fromDB := rapid.SampledFrom(append([]string{"zzqx"}, toks...))
@@ -429,7 +436,12 @@ func Query(t *rapid.T, cmds []database.Command, allow []QueryClass) (string, Que
 		return TextOf(fromDB, 1, 4).Draw(t, "q"), cls
 	case "nlp":
 		nlpw := rapid.SampledFrom([]string{"find", "show", "create", "delete", "compress", "install", "list", "file", "files", "directory", "folder", "ip", "process", "how", "to", "the", "manage", "windows", "contents", "without opening", "see", "permission"})
-		return TextOf(rapid.OneOf(nlpw, fromDB), 1, 6).Draw(t, "q"), cls
+		if rapid.IntRange(0, 3).Draw(t, "nlp-clues") == 0 {
+			// short sentences from the context-clue words alone, complete and cut-off phrases alike
+			return ClueSentence(t), cls
+		}
+		// NLPWords: every word the language heuristics know, phrases also split into their words
+		return TextOf(rapid.OneOf(nlpw, fromDB, rapid.SampledFrom(NLPWords)), 1, 6).Draw(t, "q"), cls
 	case "stop":
 		return TextOf(rapid.SampledFrom([]string{"the", "to", "a", "in", "go", "up", "how", "of"}), 1, 4).Draw(t, "q"), cls
 	case "punct":
@@ -448,6 +460,8 @@ func Query(t *rapid.T, cmds []database.Command, allow []QueryClass) (string, Que
 		return string(rs[:n]), cls
 	case "unicode":
 		return TextOf(rapid.OneOf(UWord(false), fromDB), 1, 4).Draw(t, "q"), cls
+	case "sized":
+		return SizedText(t, rapid.Bool().Draw(t, "sized-q-spaces")), cls
 	case "arbitrary":
 		return rapid.String().Draw(t, "q"), cls
 	default: // mixed
@@ -715,4 +729,16 @@ func SizedText(t *rapid.T, spaces bool) string {
 		rs = append(rs, u[i%len(u)])
 	}
 	return string(rs)
+}
+
+// NLPWords lists the words and phrases the language heuristics treat specially (mined from the
+// string literals of internal/nlp at the pinned commit), with every phrase also split into its
+// words so that incomplete phrases ("... without") are generated too.
+var NLPWords = []string{"-x", "a", "access", "account", "active", "adapter", "add", "address", "all", "alter", "an", "analysis", "analyze", "and", "apt", "archive", "archives", "are", "as", "assemble", "at", "awk", "b", "backup", "be", "been", "begin", "branch", "brew", "build", "bundle", "but", "by", "c", "call", "cat", "change", "changes", "check", "chmod", "chown", "clean", "clear", "clone", "code", "come", "command", "commit", "compile", "compress", "config", "configuration", "configure", "configure ssh keys for github", "connection", "connections", "content", "contents", "control", "copy", "could", "cp", "create", "create new directory", "curl", "cut", "daemon", "daemons", "data", "day", "decompress", "delete", "deploy", "destroy", "df", "did", "dir", "directories", "directory", "dirs", "discover", "disk", "display", "docker", "document", "documents", "down", "download", "du", "duplicate", "each", "echo", "edit", "editing", "editor", "emacs", "empty", "end", "erase", "execute", "executing", "execution", "expand", "extract", "fetch", "file", "files", "find", "find all text files in directory", "find files", "first", "folder", "folders", "for", "from", "general", "generate", "get", "git", "github", "go", "grep", "group", "gunzip", "gzip", "had", "has", "have", "he", "head", "her", "him", "host", "how", "how to commit changes in git", "how to find the files in a directory", "htop", "if", "ifconfig", "in", "inside", "install", "install docker on ubuntu", "installation", "interface", "into", "ip", "ipconfig", "is", "it", "its", "job", "jobs", "keys", "kill", "launch", "less", "like", "link", "list", "live", "locate", "location", "log", "logs", "look", "lookup", "ls", "made", "make", "manage", "many", "map", "math", "may", "mkdir", "modify", "more", "move", "multiple", "multiple spaces", "mv", "my", "nano", "netstat", "network", "network interface address", "new", "newlines", "nil", "no", "now", "npm", "of", "oil", "old", "on", "opening", "out", "pack", "package", "packages", "part", "path", "paths", "permission", "permissions", "pip", "pkill", "port", "ports", "post", "print", "printf", "process", "processes", "processing", "program", "project", "ps", "publish", "pull", "push", "query", "query with newlines", "query with tabs", "query-with-hyphens", "read", "ref", "reflect", "regexp", "release", "relocate", "remote", "remove", "remove old files", "rename", "replace", "repo", "repository", "retrieve", "revision", "rights", "rm", "rmdir", "rsync", "run", "running", "said", "scp", "search", "sed", "see", "send", "server", "service", "services", "set", "setup", "she", "shift", "ship", "show", "simple", "simple query", "sit", "site", "so", "socket", "some", "something", "sort", "source", "space", "spaces", "ss", "ssh", "start", "stop", "storage", "strings", "synonyms", "synonyms map is nil", "system", "tabs", "tail", "tar", "tar -x", "task", "tasks", "terminate", "test", "testing", "text", "than", "that", "the", "their", "them", "then", "these", "they", "this", "time", "to", "tools", "top", "transfer", "two", "ubuntu", "unarchive", "unicode", "unknown", "unpack", "untar", "unzip", "up", "update", "upload", "url", "usage", "user", "users", "validate", "verify", "vi", "view", "vim", "was", "way", "website", "wget", "what", "which", "who", "will", "windows", "with", "without", "without editing", "without opening", "would", "yum", "zip"}
+
+// ClueSentence draws a short sentence from the context-clue words of the language heuristics
+// alone: complete phrases ("see contents without opening") and cut-off ones ("show it without").
+func ClueSentence(t *rapid.T) string {
+	clue := rapid.SampledFrom([]string{"see", "view", "show", "display", "read", "look", "without", "without", "opening", "editing", "without opening", "without editing", "file", "contents", "it", "inside", "tar -x", "network interface address"})
+	return TextOf(clue, 1, 5).Draw(t, "clue-sentence")
 }
